@@ -546,7 +546,7 @@ func (c *cache) get(nocache bool, ctx context.Context, url string, start, limit 
 	defer seg.Unlock()
 	seg.nreads++
 	if seg.done {
-		return seg.d, nil
+		return eth.CopyBlocks(seg.d), nil
 	}
 
 	blocks, err := f(ctx, url, start, limit)
@@ -554,9 +554,12 @@ func (c *cache) get(nocache bool, ctx context.Context, url string, start, limit 
 		return nil, fmt.Errorf("cache get: %w", err)
 	}
 
+	// Cached blocks are never modified. Every reader gets its own
+	// copy to attach logs, receipts and traces to and to read from
+	// while other tasks do the same.
 	seg.d = blocks
 	seg.done = true
-	return seg.d, nil
+	return eth.CopyBlocks(seg.d), nil
 }
 
 func (c *Client) blocks(ctx context.Context, url string, start, limit uint64) ([]eth.Block, error) {
